@@ -40,6 +40,18 @@ def new_api_history(rng: random.Random, counts: dict) -> None:
 
     U = core_universe()
     P = U.P
+    if rng.random() < 0.5:
+        # the very first instances of the model's classes are made while run-time type checks are on (well-typed default
+        # instances), then the flag goes back
+        from .universe import warm_up
+
+        was_tc = config.RUNTIME_TYPE_CHECK
+        config.RUNTIME_TYPE_CHECK = True
+        try:
+            _quiet(warm_up, U, rng)
+        finally:
+            config.RUNTIME_TYPE_CHECK = was_tc
+        counts["first-instances-under-type-checks"] = 1
     tg = G.TreeGen(rng, U, max_nodes=10, max_depth=4, max_width=3, share=0.05, twin=0.2, p_origin=0.5, hostile=0.0, exclude=("Blob",))
     roots = []
     for _ in range(6):
@@ -52,14 +64,14 @@ def new_api_history(rng: random.Random, counts: dict) -> None:
         counts[step] = counts.get(step, 0) + 1
         for r in roots:
             if step == "serialize":
-                for opts in (
+                for opts in rng.sample((
                     None,
                     {SerializationOption.SKIP_CLASS: True},
                     {SerializationOption.SORT_KEYS: True, SerializationOption.SKIP_ID: True} if hasattr(SerializationOption, "SKIP_ID") else {SerializationOption.SORT_KEYS: True},
                     {AST_SERIALIZE_DIALECT_KEY: ASTSerializationDialects.AST_EXPLORER},
                     {AST_SERIALIZE_DIALECT_KEY: ASTSerializationDialects.AST_TEST, SerializationOption.SORT_KEYS: True},
                     {SOURCE_OPTIMIZED_SERIALIZATION_KEY: True},
-                ):
+                ), 6):
                     d = _quiet(r.as_dict, serialization_options=opts)
                     _quiet(r.to_json, serialization_options=opts)
                     _quiet(r.to_msgpck, serialization_options=opts)
@@ -204,6 +216,12 @@ def legacy_history(rng: random.Random, counts: dict, runtime_only: bool) -> None
         base = rng.randrange(10**6) + 5000000
         a, b, c = Leaf(v=base, origin=NO), Leaf(v=base + 1, origin=NO), Leaf(v=base + 2, origin=NO)
         roots.append(Lst(items=(Un(child=a, origin=NO), b, Lst(items=(c,), origin=NO)), origin=NO))
+    if rng.random() < 0.6:
+        # class-level introspection of every class of the model (a schema generator run at import time)
+        for c in U.cls.values():
+            _quiet(c.get_property_fields)
+            _quiet(c.get_child_fields)
+        counts["legacy-class-introspection"] = 1
     steps = ["traverse", "xpath", "serialize", "visit", "replace", "detach-attach", "duplicate", "rich"]
     rng.shuffle(steps)
     for step in steps:
